@@ -512,6 +512,39 @@ pub fn run(a: &Args, rep: &mut Reporter) {
         if mode == "c10" {
             hostile_mutate(&mut scene, &mut r, &mut cover);
         }
+        if mode == "c01" && idx % 157 == 11 {
+            // a legal but very wide prototype: hundreds of narrow extension attributes. Every byte stream then
+            // carries a few left-over bits from packet to packet, and one point still fits a packet many times.
+            let ext = Extension { namespace: "wide".into(), url: "http://www.example.com/wide".into() };
+            if !scene.items.iter().any(|it| matches!(it, Item::Ext(e) if e.namespace == ext.namespace || e.url == ext.url)) {
+                scene.items.insert(0, Item::Ext(ext.clone()));
+                let n_rec = *r.pick(&[300usize, 600, 900, 1200, 2000, 3000]);
+                let fixed_w = if r.bool() { Some(1 + r.usize(7)) } else { None };
+                let mut done = false;
+                for it in scene.items.iter_mut() {
+                    if let Item::Pc(pc) = it {
+                        if done {
+                            break;
+                        }
+                        for i in 0..n_rec {
+                            let w = fixed_w.unwrap_or(1 + r.usize(11));
+                            let min = r.range(-5, 5);
+                            pc.prototype.push(Record { name: RecordName::Unknown { namespace: "wide".into(), name: format!("a{}", i) }, data_type: RecordDataType::Integer { min, max: min + ((1i64 << w) - 1) } });
+                        }
+                        if let Some(ppp) = points_per_packet(&pc.prototype) {
+                            if ppp >= 1 {
+                                let n_pts = (ppp * (2 + r.usize(3)) + r.usize(ppp.max(2))).min(1500);
+                                let proto = pc.prototype.clone();
+                                pc.points = (0..n_pts).map(|_| gen_point(&mut r, &proto, true)).collect();
+                                cover.hit(&format!("wide-prototype:{}:{}", n_rec, match fixed_w { Some(w) => format!("w{}", w), None => "mixed".into() }));
+                                cover.hit(&format!("wide-prototype:packets:{}", ((n_pts + ppp - 1) / ppp).min(6)));
+                                done = true;
+                            }
+                        }
+                    }
+                }
+            }
+        }
         if mode == "c12w" {
             let w = (idx % 65) as usize;
             let vset = (idx / 65) % 5;
